@@ -128,6 +128,23 @@ theorem writeFile_content (q : Req) (e : Env) :
         ++ signature (useAnony q.cfg q.anon) q.ip q.frm ++ urlLine q.cfg q.board e.name, pEntropy q) :=
   articleFile_eq q e
 
+/-- Header rendering is verbatim in every field: whatever bytes the nickname, the user id, the board name, the
+title and the time text contain — `%` and printf verbs included (37 is just a byte to `%s` of a byte slice) —
+the file starts with the author line, then the title line, then the time line, then an empty line. -/
+theorem header_verbatim (c : Cfg) (anon : Bool) (userID nick board title ctime : Bytes) :
+    header c anon userID nick board title ctime =
+      (Gen.Post.STR_AUTHOR1_BIG5 ++ [32] ++ (headerAuthor c anon userID nick).1 ++ [32, 40]
+        ++ (headerAuthor c anon userID nick).2 ++ [41, 32] ++ Gen.Post.STR_POST1_BIG5 ++ [32] ++ board ++ [10])
+      ++ (Gen.Post.STR_TITLE_BIG5 ++ [32] ++ title ++ [10])
+      ++ (Gen.Post.STR_TIME_BIG5 ++ [32] ++ ctime ++ [10]) ++ [10] := by
+  simp [header, List.append_assoc]
+
+/-- "100% pure" as a nickname, "%s%d" as a title: both appear as they are. -/
+example : header {} false [65, 0] [49, 48, 48, 37, 32, 112, 117, 114, 101] [87] [37, 115, 37, 100] [67] =
+    Gen.Post.STR_AUTHOR1_BIG5 ++ [32, 65, 32, 40, 49, 48, 48, 37, 32, 112, 117, 114, 101, 41, 32] ++ Gen.Post.STR_POST1_BIG5
+      ++ [32, 87, 10] ++ Gen.Post.STR_TITLE_BIG5 ++ [32, 37, 115, 37, 100, 10] ++ Gen.Post.STR_TIME_BIG5 ++ [32, 67, 10, 10] := by
+  decide
+
 /-- every stored body line is free of cursor-movement sequences and of trailing blanks. -/
 theorem stored_lines_clean (l : Bytes) :
     hasMove (pLine l) = false ∧ (∃ k, cstr l = trim l ++ List.replicate k 32) ∧ (pLine l).length = (trim l).length :=
@@ -226,6 +243,7 @@ theorem post_frame (s : St) (q : Req) (e : Env) (b : BoardSt)
       (q.isOpen = false → findBoard s'.boards ALLPOST = findBoard s.boards ALLPOST) ∧
       (q.isOpen = true → ∀ a, findBoard s.boards ALLPOST = some a → ∃ a', findBoard s'.boards ALLPOST = some a' ∧
         a'.dir.bytes = a.dir.bytes.take (a.dir.bytes.length / dirSz * dirSz) ++ pCross q e ∧
+        a'.total = a'.dir.bytes.length / dirSz ∧ a'.total = a.dir.bytes.length / dirSz + 1 ∧
         lookupFile a'.files e.name = some (pContent q e)) := by
   refine ⟨nextSt s q e b, post_eq s q e b (hwf ▸ hb), ?_, ?_, ?_⟩
   · intro m h1 h2
@@ -235,11 +253,30 @@ theorem post_frame (s : St) (q : Req) (e : Env) (b : BoardSt)
     rw [nextSt_board s q e b hb hwf hx]; simp [ho, hx']
   · intro ho a ha
     have hx' : ¬ ALLPOST = q.board := fun h => hx h.symm
-    refine ⟨a.crossPublish e.name (pContent q e) (pCross q e), ?_, ?_, ?_⟩
+    have hcl : (pCross q e).length = dirSz := crossRecord_length ..
+    refine ⟨a.crossPublish e.name (pContent q e) (pCross q e), ?_, ?_, rfl, ?_, ?_⟩
     · rw [nextSt_board s q e b hb hwf hx]; simp [ho, hx', ha]
     · simp only [BoardSt.crossPublish]
-      rw [C05.Props.append_spec a.dir dirSz (pCross q e) dirSz_pos (crossRecord_length ..)]
+      rw [C05.Props.append_spec a.dir dirSz (pCross q e) dirSz_pos hcl]
+    · simp only [BoardSt.crossPublish]
+      rw [C05.Props.append_spec a.dir dirSz (pCross q e) dirSz_pos hcl]
+      simp only [List.length_append, List.length_take, hcl]
+      have h1 := C05.div_mul_le' a.dir.bytes.length dirSz
+      rw [Nat.min_eq_left h1, ← Nat.succ_mul, Nat.mul_div_cancel _ dirSz_pos]
     · simp [BoardSt.crossPublish, lookupFile]
+
+/-- before 4ca0e38 the copy only added 1 to the cached total: on a board whose total had not been counted yet
+(0 after `ReloadBCache`) with two records on disk, the cache said 1 while the index held 3 — and 1 ≠ 0 is never
+recounted.  After the fix the total is the record count. -/
+theorem before_fix_cold_logboard_total (rec : Bytes) (h : rec.length = dirSz) (two : Bytes) (h2 : two.length = 2 * dirSz) :
+    let b : BoardSt := ⟨ALLPOST, ⟨true, two⟩, [], 0⟩
+    (b.crossPublishOld [77] [] rec).total = 1 ∧ (b.crossPublishOld [77] [] rec).dir.bytes.length / dirSz = 3 ∧
+    (b.crossPublish [77] [] rec).total = 3 := by
+  have hs := C05.Props.append_spec ⟨true, two⟩ dirSz rec dirSz_pos h
+  have e : dirSz = 128 := by decide
+  simp only [BoardSt.crossPublishOld, BoardSt.crossPublish, hs, List.length_append, List.length_take, h, h2]
+  rw [e]
+  decide
 
 /-- the record written names the owner and date as well (title: `title_fits`). -/
 theorem record_fields (q : Req) (e : Env) :
